@@ -48,6 +48,21 @@ fn viol<T>(lane: &str, sig: &str, what: String, detail: Value) -> Result<T, Abor
     })
 }
 
+/// Re-label a violation raised inside a monitor with the monitor's class
+/// (signature) and its concrete crash / fault point (message).
+pub fn in_ctx<T>(r: Result<T, Abort>, class: &str, why: &str) -> Result<T, Abort> {
+    match r {
+        Err(Abort::Violation { sig, what, detail }) => {
+            let mut p = sig.splitn(3, ':');
+            let (a, b, c) = (p.next().unwrap_or(""), p.next().unwrap_or(""), p.next().unwrap_or(""));
+            let sig = format!("{a}:{b}:{class}:{c}");
+            let what = if what.contains(why) { what } else { format!("{why}: {what}") };
+            Err(Abort::Violation { sig, what, detail })
+        }
+        other => other,
+    }
+}
+
 fn harness<T>(s: String) -> Result<T, Abort> {
     Err(Abort::Harness(s))
 }
@@ -134,11 +149,13 @@ const PROBE_SLOT: u64 = 10_000;
 
 pub fn build_env(seed: u64, case: u64, lane: &str, max_slots: usize, ops_per_slot: (usize, usize)) -> Result<CaseEnv, String> {
     let mut rng = Rng::for_case(seed, &format!("C17:{lane}"), case);
-    // 1..=max_slots request ids, small counts a little more likely
-    let n_slots = if rng.chance(1, 4) {
-        rng.range_usize(1, 3.min(max_slots))
-    } else {
-        rng.range_usize(1, max_slots)
+    // 1..=max_slots request ids; small histories are more frequent (they are
+    // cheaper and cover the same single-id automaton), large ones give the
+    // interleavings and the shared index paths.
+    let n_slots = match rng.below(100) {
+        0..=44 => rng.range_usize(1, 4.min(max_slots)),
+        45..=79 => rng.range_usize(4.min(max_slots), 8.min(max_slots)),
+        _ => rng.range_usize(8.min(max_slots), max_slots),
     };
     let registry = ExternalActionAdapterRegistryV1::new([
         ExternalActionAdapterBindingV1 {
@@ -280,8 +297,30 @@ pub struct RunState {
     /// The adapter-side memory: last settlement candidate sent per slot.
     pub last_sent: Vec<Option<ExternalActionSettlementCandidateV1>>,
     /// Logical store snapshot right after the request / claim commit of a slot.
-    pub req_snap: Vec<Option<Rc<WalStoreSnapshot>>>,
-    pub claim_snap: Vec<Option<Rc<WalStoreSnapshot>>>,
+    pub req_snap: Vec<Option<Rc<Mark>>>,
+    pub claim_snap: Vec<Option<Rc<Mark>>>,
+}
+
+/// A committed prefix of the log plus (lazily) the coordinator recovered from
+/// exactly that prefix — the source of genuine-but-stale tokens.
+pub struct Mark {
+    pub snap: Rc<WalStoreSnapshot>,
+    coord: std::cell::OnceCell<Result<ExternalActionCoordinatorV1, String>>,
+}
+
+impl Mark {
+    pub fn new(snap: Rc<WalStoreSnapshot>) -> Rc<Self> {
+        Rc::new(Self {
+            snap,
+            coord: std::cell::OnceCell::new(),
+        })
+    }
+    fn coordinator(&self) -> Result<&ExternalActionCoordinatorV1, String> {
+        self.coord
+            .get_or_init(|| ExternalActionCoordinatorV1::recover(&FrozenStore { snap: (*self.snap).clone() }).map_err(|e| es(&e)))
+            .as_ref()
+            .map_err(Clone::clone)
+    }
 }
 
 impl RunState {
@@ -393,9 +432,6 @@ fn es(e: &ExternalActionProtocolErrorV1) -> String {
     format!("{e:?}")
 }
 
-fn recover_frozen(snap: &Rc<WalStoreSnapshot>) -> Result<ExternalActionCoordinatorV1, String> {
-    ExternalActionCoordinatorV1::recover(&FrozenStore { snap: (**snap).clone() }).map_err(|e| es(&e))
-}
 
 fn mint_token(
     env: &CaseEnv,
@@ -410,7 +446,7 @@ fn mint_token(
         TokSrc::StaleAtRequest => match &rs.req_snap[slot] {
             Some(s) => (
                 src,
-                recover_frozen(s).and_then(|c| c.recorded_request(rid).map_err(|e| es(&e))),
+                s.coordinator().and_then(|c| c.recorded_request(rid).map_err(|e| es(&e))),
             ),
             None => (TokSrc::Shadow, env.shadow_req.recorded_request(rid).map_err(|e| es(&e))),
         },
@@ -431,7 +467,7 @@ fn mint_grant(
         GrantSrc::StaleAtClaim => match &rs.claim_snap[slot] {
             Some(s) => (
                 src,
-                recover_frozen(s).and_then(|c| c.claim_grant(rid).map_err(|e| es(&e))),
+                s.coordinator().and_then(|c| c.claim_grant(rid).map_err(|e| es(&e))),
             ),
             None => (
                 GrantSrc::ShadowOtherLease,
@@ -461,7 +497,8 @@ fn build_candidate(
         q => budget * u64::from(q) / 4,
     };
     if m == CandMut::OverBudget {
-        len = budget + 1 + u64::from(salt % 3);
+        // mostly the boundary value budget+1, sometimes further out
+        len = budget + 1 + if salt % 3 == 0 { u64::from(salt % 7) } else { 0 };
     }
     let bytes: Vec<u8> = (0..len).map(|i| salt ^ (i as u8) ^ (slot as u8).wrapping_mul(31)).collect();
     let mut c = ExternalActionSettlementCandidateV1::new(
@@ -554,6 +591,9 @@ pub struct Stats {
     pub publish_calls: u64,
     pub outstanding_at_crash: u64,
     pub fault_points: Vec<String>,
+    pub secondary_window: Option<usize>,
+    pub windowed_continuations: u64,
+    pub full_continuations: u64,
 }
 
 impl Stats {
@@ -576,6 +616,9 @@ impl Stats {
             publish_calls: 0,
             outstanding_at_crash: 0,
             fault_points: Vec::new(),
+            secondary_window: None,
+            windowed_continuations: 0,
+            full_continuations: 0,
         }
     }
 }
@@ -823,8 +866,8 @@ pub fn exec_op<B: Backend>(
     };
     if let (Ok(s), Some(slot)) = (&snap1, op.slot()) {
         match res {
-            Res::Recorded { .. } => rs.req_snap[slot] = Some(s.clone()),
-            Res::Granted { .. } => rs.claim_snap[slot] = Some(s.clone()),
+            Res::Recorded { .. } => rs.req_snap[slot] = Some(Mark::new(s.clone())),
+            Res::Granted { .. } => rs.claim_snap[slot] = Some(Mark::new(s.clone())),
             _ => {}
         }
     }
@@ -1046,13 +1089,14 @@ where
         t2.borrow_mut().push((k, B::snapshot(s)));
     }));
     let mut rs = RunState::new(env.slots.len());
+    let mut last_ref_root = reference_root(&[]);
     let mut tr = MainTrace {
         events: Vec::new(),
         states: Vec::new(),
         calls: Vec::new(),
     };
     for (i, op) in env.ops.iter().enumerate() {
-        let lg = Rc::new(logical(&w.store.inner).or_else(harness)?);
+        let lg = w.logical().or_else(harness)?;
         tr.states.push(State {
             coord: w.coord.clone(),
             phys: B::snapshot(&w.store.inner),
@@ -1068,9 +1112,14 @@ where
             tr.calls.push(CallPoint { op: i, kind: k, phys: s });
         }
         // incrementally maintained root vs. independent reference, after every op
-        let lg1 = logical(&w.store.inner).or_else(harness)?;
-        let rr = reference_root(&txs_of(&lg1));
-        stats.root_checks += 1;
+        let lg1 = w.logical().or_else(harness)?;
+        let rr = if ev.store_calls.is_empty() && !matches!(op, Op::Recover) {
+            last_ref_root
+        } else {
+            stats.root_checks += 1;
+            reference_root(&txs_of(&lg1))
+        };
+        last_ref_root = rr;
         if w.coord.observed_index().root_digest() != rr {
             return viol(
                 B::NAME,
@@ -1085,7 +1134,7 @@ where
         }
         tr.events.push(ev);
     }
-    let lg = Rc::new(logical(&w.store.inner).or_else(harness)?);
+    let lg = w.logical().or_else(harness)?;
     tr.states.push(State {
         coord: w.coord.clone(),
         phys: B::snapshot(&w.store.inner),
@@ -1108,10 +1157,23 @@ pub fn continue_from<B: Backend>(
     start: usize,
     main: &MainTrace<B>,
     exact: bool,
+    secondary: bool,
     why: &str,
     stats: &mut Stats,
 ) -> Result<(), Abort> {
-    for i in start..env.ops.len() {
+    // Secondary crash / fault points may be followed by a bounded window of the
+    // remaining workload (quick tier); the comparison against the uninterrupted
+    // run is made at whatever operation index the continuation stops.
+    let end = match (secondary, stats.secondary_window) {
+        (true, Some(win)) => (start + win).min(env.ops.len()),
+        _ => env.ops.len(),
+    };
+    if end < env.ops.len() {
+        stats.windowed_continuations += 1;
+    } else {
+        stats.full_continuations += 1;
+    }
+    for i in start..end {
         let ev = exec_op(env, be, w, rs, i, &env.ops[i])?;
         stats.cont_ops += 1;
         if ev.durable_at_return == Some(false) {
@@ -1141,8 +1203,8 @@ pub fn continue_from<B: Backend>(
             );
         }
     }
-    let fin = &main.states[env.ops.len()];
-    let lg = logical(&w.store.inner).or_else(harness)?;
+    let fin = &main.states[end];
+    let lg = w.logical().or_else(harness)?;
     compare_recovered::<B>(env, &w.coord, &fin.coord, &txs_of(&lg), exact, &format!("{why}: end of continued run"), stats)?;
     stats.recoveries -= 1; // not a recovery, only the comparison helper
     if txs_of(&lg).len() != txs_of(&fin.logical).len() {
@@ -1251,12 +1313,16 @@ pub fn crash_after_every_op<B: Backend>(env: &CaseEnv, be: &mut B, main: &MainTr
     for i in 0..env.ops.len() {
         let st = &main.states[i + 1];
         let why = format!("crash after op {i} {:?}", env.ops[i]);
-        let mut w = reboot::<B>(be, &st.phys, Some(false), &why)?;
-        compare_recovered::<B>(env, &w.coord, &st.coord, &txs_of(&st.logical), true, &why, stats)?;
-        stats.crash_after_op += 1;
-        stats.outstanding_at_crash += outstanding(&st.coord, env);
-        let mut rs = st.rs.clone();
-        continue_from(env, be, &mut w, &mut rs, i + 1, main, B::EXACT, &why, stats)?;
+        let secondary = main.events[i].store_calls.is_empty() && !matches!(env.ops[i], Op::Recover);
+        let r = (|| -> Result<(), Abort> {
+            let mut w = reboot::<B>(be, &st.phys, Some(false), &why)?;
+            compare_recovered::<B>(env, &w.coord, &st.coord, &txs_of(&st.logical), true, &why, stats)?;
+            stats.crash_after_op += 1;
+            stats.outstanding_at_crash += outstanding(&st.coord, env);
+            let mut rs = st.rs.clone();
+            continue_from(env, be, &mut w, &mut rs, i + 1, main, B::EXACT, secondary, &why, stats)
+        })();
+        in_ctx(r, "crash-after-op", &why)?;
     }
     Ok(())
 }
@@ -1269,25 +1335,31 @@ pub fn crash_after_every_store_call<B: Backend>(env: &CaseEnv, be: &mut B, main:
                 // frame durable, commit marker missing ⇒ not a step
                 let why = format!("crash after the frame (before the commit marker) of op {i} {:?}", env.ops[i]);
                 let pre = &main.states[i];
-                let mut w = reboot::<B>(be, &cp.phys, Some(true), &why)?;
-                stats.tail_repairs += 1;
-                compare_recovered::<B>(env, &w.coord, &pre.coord, &txs_of(&pre.logical), true, &why, stats)?;
-                stats.crash_after_frame += 1;
-                stats.outstanding_at_crash += outstanding(&pre.coord, env);
-                let mut rs = pre.rs.clone();
-                continue_from(env, be, &mut w, &mut rs, i, main, B::EXACT, &why, stats)?;
+                let r = (|| -> Result<(), Abort> {
+                    let mut w = reboot::<B>(be, &cp.phys, Some(true), &why)?;
+                    stats.tail_repairs += 1;
+                    compare_recovered::<B>(env, &w.coord, &pre.coord, &txs_of(&pre.logical), true, &why, stats)?;
+                    stats.crash_after_frame += 1;
+                    stats.outstanding_at_crash += outstanding(&pre.coord, env);
+                    let mut rs = pre.rs.clone();
+                    continue_from(env, be, &mut w, &mut rs, i, main, B::EXACT, false, &why, stats)
+                })();
+                in_ctx(r, "crash-after-frame", &why)?;
             }
             CallKind::Flush => {
                 // commit durable, acknowledgement lost
                 let why = format!("crash after the commit marker (before the grant returned) of op {i} {:?}", env.ops[i]);
                 let post = &main.states[i + 1];
-                let mut w = reboot::<B>(be, &cp.phys, Some(false), &why)?;
-                compare_recovered::<B>(env, &w.coord, &post.coord, &txs_of(&post.logical), true, &why, stats)?;
-                stats.crash_after_commit += 1;
-                stats.outstanding_at_crash += outstanding(&post.coord, env);
-                let mut rs = post.rs.clone();
-                check_lost_ack(env, be, &mut w, &mut rs, i, &main.events[i].res, true, &why, stats)?;
-                continue_from(env, be, &mut w, &mut rs, i + 1, main, B::EXACT, &why, stats)?;
+                let r = (|| -> Result<(), Abort> {
+                    let mut w = reboot::<B>(be, &cp.phys, Some(false), &why)?;
+                    compare_recovered::<B>(env, &w.coord, &post.coord, &txs_of(&post.logical), true, &why, stats)?;
+                    stats.crash_after_commit += 1;
+                    stats.outstanding_at_crash += outstanding(&post.coord, env);
+                    let mut rs = post.rs.clone();
+                    check_lost_ack(env, be, &mut w, &mut rs, i, &main.events[i].res, true, &why, stats)?;
+                    continue_from(env, be, &mut w, &mut rs, i + 1, main, B::EXACT, false, &why, stats)
+                })();
+                in_ctx(r, "crash-after-commit-marker", &why)?;
             }
             CallKind::Publish => {}
         }
@@ -1317,6 +1389,8 @@ pub fn store_faults<B: Backend>(env: &CaseEnv, be: &mut B, main: &MainTrace<B>, 
         };
         for mode in [FaultMode::Before, FaultMode::After] {
             let why = format!("{} #{n} (op {i} {:?}) fails {} reaching the store", cp.kind.as_str(), env.ops[i], mode.as_str());
+            let class = format!("fault-{}-{}", cp.kind.as_str(), mode.as_str());
+            let r = (|| -> Result<(), Abort> {
             stats.faults += 1;
             stats.fault_points.push(format!("{}:{}:{n}", cp.kind.as_str(), mode.as_str()));
             let pre = &main.states[i];
@@ -1352,7 +1426,7 @@ pub fn store_faults<B: Backend>(env: &CaseEnv, be: &mut B, main: &MainTrace<B>, 
                     json!({"why": why, "op": i}),
                 );
             }
-            let after = logical(&w.store.inner).or_else(harness)?;
+            let after = w.logical().or_else(harness)?;
             let store_moved = after.frames.len() != pre.logical.frames.len() || after.commits.len() != pre.logical.commits.len();
             let poisoned = matches!(
                 w.coord.recorded_request(env.probe.request_id()),
@@ -1402,18 +1476,21 @@ pub fn store_faults<B: Backend>(env: &CaseEnv, be: &mut B, main: &MainTrace<B>, 
                 compare_recovered::<B>(env, &w.coord, &post.coord, &txs_of(&after), B::EXACT, &why, stats)?;
                 if let Some(slot) = env.ops[i].slot() {
                     match main.events[i].res {
-                        Res::Recorded { .. } => rs.req_snap[slot] = Some(Rc::new(after.clone())),
-                        Res::Granted { .. } => rs.claim_snap[slot] = Some(Rc::new(after.clone())),
+                        Res::Recorded { .. } => rs.req_snap[slot] = Some(Mark::new(after.clone())),
+                        Res::Granted { .. } => rs.claim_snap[slot] = Some(Mark::new(after.clone())),
                         _ => {}
                     }
                 }
                 check_lost_ack(env, be, &mut w, &mut rs, i, &main.events[i].res, B::EXACT, &why, stats)?;
-                continue_from(env, be, &mut w, &mut rs, i + 1, main, B::EXACT, &why, stats)?;
+                continue_from(env, be, &mut w, &mut rs, i + 1, main, B::EXACT, true, &why, stats)?;
             } else {
                 compare_recovered::<B>(env, &w.coord, &pre.coord, &txs_of(&pre.logical), true, &why, stats)?;
                 let mut rs = pre.rs.clone();
-                continue_from(env, be, &mut w, &mut rs, i, main, B::EXACT, &why, stats)?;
+                continue_from(env, be, &mut w, &mut rs, i, main, B::EXACT, true, &why, stats)?;
             }
+            Ok(())
+            })();
+            in_ctx(r, &class, &why)?;
         }
     }
     Ok(())
